@@ -25,6 +25,8 @@ OBLIGATIONS = [
     ob('queue_op3', 3, 4, defs=['NOP=3', 'LOWFIX'], bounds='3 operations, 3 oids with fixed distinct low 4 bits (slots 1,4,7) and symbolic upper 60 bits, 2 users', tiers=('thorough',), timeout=3400, mem_gb=40),
     ob('queue_op4', 4, 4, defs=['NOP=4', 'LOWFIX'], bounds='4 operations, same oids', tiers=('thorough',), timeout=3400, mem_gb=30),
     ob('queue_op3_anylow', 3, 4, bounds='3 operations, 3 oids differing within their low 4 bits (no table growth)', tiers=('thorough',), timeout=3400, mem_gb=40),
+    ob('table_growth_32_64', 1, 4, defs=['NOP=1', 'RESIZE=5', 'TABMAX=64'], bounds='two oids sharing their low 4..5 bits: table grows to 32..64 slots', timeout=1800, mem_gb=12,
+       unwindset={'put_task_slot.*': 20, 'get_task_slot.*': 18, 'make_task_pool.*': 5, 'memset.*': 4}),
     ob('table_growth', 1, 4, defs=['NOP=1', 'RESIZE=7', 'TABMAX=256'], bounds='two oids sharing their low 4..7 bits: table grows to 32..256 slots', timeout=3400, mem_gb=40, tiers=('thorough',),
        unwindset={'put_task_slot.*': 20, 'get_task_slot.*': 18, 'make_task_pool.*': 5, 'memset.*': 4}),
 ]
